@@ -18,6 +18,7 @@ Hypothesis Pflat : forall D l f, find_tree i D = Some l -> In f l -> is_dir_oid 
 Hypothesis P2 : S -> forall D l f, In D new -> is_dir_oid D = true -> find_tree i D = Some l -> In f l ->
   has (t_dst i) f = true \/ In f new \/ In f missing.
 Hypothesis P3 : forall D l l', find_tree i D = Some l -> listing (t_parse i) (t_src i) D = Some l' -> l' = l.
+Hypothesis Ptrunc : S -> forall o, is_dir_oid o = true -> t_parse i (t_trunc i o) = None.
 
 Definition files0 : list oid := filter is_file_oid new.
 
@@ -53,7 +54,9 @@ Lemma safe_file_batch d batch :
 Proof.
   intros Hb. apply safe_add.
   - intros o Ho. apply (proj1 (Hbord _ _)) in Ho. apply Hb in Ho. apply files0_In in Ho. destruct Ho as [_ Hf].
-    destruct (upload_ok i o); simpl; auto. intros _ l f HL. unfold listing in HL. rewrite Hf in HL. discriminate.
+    destruct (attempt_cases i o) as [[E1 E2]|[[E1 [E2 E3]]|[E1 E2]]]; rewrite E1; simpl; auto;
+      try solve [intros _ Hd; congruence];
+      try solve [intros _ l f HL; unfold listing in HL; rewrite Hf in HL; discriminate].
   - intros o Ho Hd. apply (proj1 (Hbord _ _)) in Ho. apply Hb in Ho. apply files0_In in Ho. destruct Ho as [Hn _].
     apply unstable_new; auto. now apply dropped_not_delivered.
 Qed.
@@ -151,8 +154,8 @@ Proof.
       assert (HsD : safe S i d1 (add_events i [D])).
       { apply safe_add.
         - intros o Ho. apply (proj1 (Hbord _ _)) in Ho. destruct Ho as [<-|[]].
-          destruct (upload_ok i D); simpl; auto. intros HS l f HLs Hf.
-          rewrite (P3 D entries l HT HLs) in Hf. auto.
+          destruct (attempt_cases i D) as [[E1 E2]|[[E1 [E2 E3]]|[E1 E2]]]; rewrite E1; simpl; auto.
+          intros HS l f HLs Hf. rewrite (P3 D entries l HT HLs) in Hf. auto.
         - intros o Ho Hd. apply (proj1 (Hbord _ _)) in Ho. destruct Ho as [<-|[]].
           apply unstable_new; auto. now apply dropped_not_delivered. }
       assert (HoidD : forall e x, In e (add_events i [D]) -> ev_oid e = Some x -> x = D).
@@ -256,11 +259,47 @@ Proof.
     + split; auto. split; [intros e x []|]. discriminate.
 Qed.
 
+(* a truncated leftover only comes from an upload that failed *)
+Lemma dir_loop_partial : forall dirs files failed o b,
+  In (Partial o b) (d_events (dir_loop i missing dirs files failed)) -> delivered i o = false.
+Proof.
+  assert (HA : forall batch o b, In (Partial o b) (add_events i batch) -> delivered i o = false).
+  { intros batch o b H. apply add_events_In_Partial in H; auto. destruct H as [_ [H _]].
+    unfold delivered. now rewrite H. }
+  induction dirs as [|D r IH]; simpl; intros files failed o b H; [contradiction|].
+  destruct (find_tree i D) as [entries|]; simpl in H; [|contradiction].
+  destruct (dir_step i missing D entries files failed) as [[[ev files'] failed'] succ] eqn:Est.
+  simpl in H. apply in_app_or in H. destruct H as [H|H]; [|eauto].
+  unfold dir_step in Est.
+  destruct (add_failed i (filter (fun f => mem f entries) files) ++ filter (fun f => mem f failed) entries).
+  - destruct (existsb (fun f => mem f missing) entries).
+    + inversion Est; subst. eauto.
+    + destruct (add_failed i [D]); inversion Est; subst; apply in_app_or in H; destruct H; eauto.
+  - inversion Est; subst. eauto.
+Qed.
+Lemma do_transfer_partial o b :
+  In (Partial o b) (fst (do_transfer i new missing)) -> delivered i o = false.
+Proof.
+  assert (HA : forall batch, In (Partial o b) (add_events i batch) -> delivered i o = false).
+  { intros batch H. apply add_events_In_Partial in H; auto. destruct H as [_ [H _]].
+    unfold delivered. now rewrite H. }
+  unfold do_transfer.
+  set (r := dir_loop i missing (t_dord i (filter is_dir_oid new)) (filter is_file_oid new) []).
+  destruct (d_ok r); simpl.
+  - destruct (add_failed i (d_files r) ++ d_failed r); simpl; intros H;
+      apply in_app_or in H; destruct H as [H|H].
+    + apply in_app_or in H. destruct H as [H|H]; [eapply dir_loop_partial; eauto|eauto].
+    + apply in_map_iff in H. destruct H as [p [E _]]. discriminate.
+    + apply in_app_or in H. destruct H as [H|H]; [eapply dir_loop_partial; eauto|eauto].
+    + destruct H as [H|[]]. discriminate.
+  - intros H. eapply dir_loop_partial; eauto.
+Qed.
+
 (* events that do not touch the destination store *)
 Lemma safe_nonstore d evs : (forall e, In e evs -> is_store_event e = false) -> safe S i d evs.
 Proof.
   revert d. induction evs as [|e r IH]; simpl; intros d H; auto. split.
-  - specialize (H e (or_introl eq_refl)). destruct e as [o [|]|o|dd fs|]; simpl in *; auto; discriminate.
+  - specialize (H e (or_introl eq_refl)). destruct e as [o [|]|o pb|o|dd fs|]; simpl in *; auto; discriminate.
   - apply IH. intros; apply H; auto.
 Qed.
 Lemma apply_dst_nonstore src evs : forall d, (forall e, In e evs -> is_store_event e = false) ->
@@ -268,7 +307,7 @@ Lemma apply_dst_nonstore src evs : forall d, (forall e, In e evs -> is_store_eve
 Proof.
   induction evs as [|e r IH]; simpl; intros d H; auto.
   rewrite IH by (intros; apply H; auto).
-  specialize (H e (or_introl eq_refl)). destruct e as [o [|]|o|dd fs|]; simpl in *; auto; discriminate.
+  specialize (H e (or_introl eq_refl)). destruct e as [o [|]|o pb|o|dd fs|]; simpl in *; auto; discriminate.
 Qed.
 
 Record DT (evs : list event) (res : option (list oid)) : Prop := {
